@@ -5,6 +5,7 @@
 // 1..3 queries queued on one TCP connection (USEVC and UDP->TC->TCP upgrade),
 // and compares each run with the unsegmented run of the same scenario.
 #include "exa_world.h"
+#include <stdarg.h>
 #include "exa_families.h"
 
 namespace exa {
@@ -184,16 +185,47 @@ static void compare(const StreamOutcome &base, const StreamOutcome &o, std::vect
     if (f.size() < 2 || f.substr(f.size() - 2) != "/1") v.push_back({ "C20:stream:frame-not-decodable", "a frame at the server does not decode: " + f });
 }
 
-// UDP side of the property: TC is retried over TCP unless ignored; zero-length datagrams are harmless
-static void udp_cases(vf::Report &rep, bool replay_only, int which, std::vector<Viol> &v, std::vector<std::string> *log)
+static std::string fmt(const char *f, ...)
 {
-  for (int cs = 0; cs < 4; cs++) {
-    if (replay_only && cs > which) continue; // a replay runs the cases up to the recorded one, in the same order as the check
-    Cfg c;
-    c.name     = "udp";
-    c.nservers = 1;
-    c.tries    = 2;
-    c.flags    = cs == 1 ? (unsigned)ARES_FLAG_IGNTC : 0u;
+  char    b[1024];
+  va_list ap;
+  va_start(ap, f);
+  vsnprintf(b, sizeof b, f, ap);
+  va_end(ap);
+  return b;
+}
+
+// UDP side of the property: TC is retried over TCP unless ignored; zero-length datagrams are harmless.
+// Enumerated over tries x servers x number of attempts already lost to timeouts when the truncated answer arrives
+// (0 .. tries*servers-1, so also on the last permitted attempt) x IGNTC x an empty datagram before the answer.
+struct UdpCase {
+  int  tries, nsrv, timeouts;
+  bool igntc;
+  int  zero; // 0: none, 1: a zero-length datagram precedes the answer, 2: plain answer preceded by one (no truncation)
+};
+static std::vector<UdpCase> udp_case_list()
+{
+  std::vector<UdpCase> v;
+  for (int tries = 1; tries <= 3; tries++)
+    for (int nsrv = 1; nsrv <= 2; nsrv++)
+      for (int to = 0; to < tries * nsrv; to++)
+        for (int ig = 0; ig < 2; ig++)
+          for (int z = 0; z < 2; z++) v.push_back({ tries, nsrv, to, ig != 0, z });
+  v.push_back({ 2, 1, 0, false, 2 });
+  v.push_back({ 1, 1, 0, false, 2 });
+  return v;
+}
+static void udp_cases(vf::Report &rep, bool replay_only, int which, std::vector<std::pair<Viol, int>> &v, std::vector<std::string> *log)
+{
+  std::vector<UdpCase> cases = udp_case_list();
+  for (int cs = 0; cs < (int)cases.size(); cs++) {
+    if (replay_only && cs != which) continue; // every case builds its own world: a replay runs just the recorded one
+    const UdpCase &u = cases[(size_t)cs];
+    Cfg            c;
+    c.name     = fmt("udp-tries%d-srv%d-after%dtimeouts%s%s", u.tries, u.nsrv, u.timeouts, u.igntc ? "-igntc" : "", u.zero ? "-zerolen" : "");
+    c.nservers = u.nsrv;
+    c.tries    = u.tries;
+    c.flags    = u.igntc ? (unsigned)ARES_FLAG_IGNTC : 0u;
     c.domains  = {};
     c.auto_io  = true;
     std::vector<ReqSpec> reqs(1);
@@ -206,46 +238,56 @@ static void udp_cases(vf::Report &rep, bool replay_only, int which, std::vector<
     }
     vf::set_current_case("{\"index\":-" + std::to_string(cs + 1) + ",\"udp_case\":" + std::to_string(cs) + "}", "C20:crash");
     w.issue(0, false);
-    std::string key;
     auto drain = [&]() {
       for (int k = 0; k < 8 && w.ch && !w.ready_fds(false).empty(); k++) w.do_io(false);
     };
-    if (cs == 0 || cs == 1) {
-      w.apply(mk(EV_REPLY, 0, RK_TC));
-      drain();
-      bool tcp = false;
-      for (auto &t : w.txs)
-        if (t.tcp) tcp = true;
-      if (cs == 0 && (!tcp || w.toks[0].count)) w.violate("C20:udp:truncated-answer-not-retried-over-tcp", "a truncated UDP answer was not followed by a TCP transmission of the query");
-      if (cs == 1 && (tcp || w.toks[0].count != 1)) w.violate("C20:udp:igntc-not-honoured", "with truncation ignored the truncated answer must be delivered and no TCP transmission made");
-      if (cs == 0 && tcp) {
-        int ttx = -1;
-        for (auto &t : w.txs)
-          if (t.tcp) ttx = t.id;
-        w.apply(mk(EV_REPLY, ttx, RK_DATA));
-        drain();
-        if (w.toks[0].count != 1 || w.toks[0].status != ARES_SUCCESS) w.violate("C20:udp:tcp-retry-not-delivered", "the answer to the TCP retry was not delivered");
-      }
-      rep.witness(cs == 0 ? "tc_retried_over_tcp" : "igntc_delivered");
+    for (int k = 0; k < u.timeouts && w.toks[0].count == 0; k++) w.apply(mk(EV_TIMER));
+    if (w.toks[0].count) {
+      w.violate("C20:udp:completed-before-budget-exhausted", fmt("[%s] the query ended after %d timeouts although tries x servers = %d", c.name.c_str(), u.timeouts, u.tries * u.nsrv));
     } else {
-      // zero-length datagram before (2) / after (3) the real answer
-      if (cs == 2) w.apply(mk(EV_REPLY, 0, RK_EMPTY));
-      if (cs == 2 && w.toks[0].count) w.violate("C20:udp:zero-length-datagram-completed-query", "a zero-length datagram completed the query");
-      if (cs == 2) w.txs[0].answered = 0;
-      w.apply(mk(EV_REPLY, 0, RK_DATA));
-      drain();
-      if (w.toks[0].count != 1 || w.toks[0].status != ARES_SUCCESS) w.violate("C20:udp:answer-after-zero-length-datagram-lost", "the real answer was not delivered");
-      if (cs == 3) {
-        // another query keeps the socket open, then an empty datagram arrives
-        std::vector<ReqSpec> dummy;
+      int last = (int)w.txs.size() - 1;
+      if (u.zero) {
+        w.apply(mk(EV_REPLY, last, RK_EMPTY));
+        drain();
+        if (w.toks[0].count) w.violate("C20:udp:zero-length-datagram-completed-query", fmt("[%s] a zero-length datagram completed the query", c.name.c_str()));
+        w.txs[(size_t)last].answered = 0;
+        rep.witness("zero_length_datagram");
       }
-      rep.witness("zero_length_datagram");
+      if (u.zero == 2) {
+        w.apply(mk(EV_REPLY, last, RK_DATA));
+        drain();
+        if (w.toks[0].count != 1 || w.toks[0].status != ARES_SUCCESS) w.violate("C20:udp:answer-after-zero-length-datagram-lost", fmt("[%s] the real answer was not delivered", c.name.c_str()));
+      } else if (w.toks[0].count == 0) {
+        size_t ntx = w.txs.size();
+        w.apply(mk(EV_REPLY, last, RK_TC));
+        drain();
+        int ttx = -1;
+        for (size_t i = ntx; i < w.txs.size(); i++)
+          if (w.txs[i].tcp) ttx = w.txs[i].id;
+        if (!u.igntc) {
+          if (ttx < 0 || w.toks[0].count)
+            w.violate("C20:udp:truncated-answer-not-retried-over-tcp",
+                      fmt("[%s] a truncated UDP answer (to attempt %d of %d) was not followed by a TCP transmission of the query%s", c.name.c_str(), u.timeouts + 1, u.tries * u.nsrv,
+                          w.toks[0].count ? fmt("; the request ended with status %d", w.toks[0].status).c_str() : ""));
+          else {
+            if (w.txs[(size_t)ttx].server != w.txs[(size_t)last].server)
+              w.violate("C20:udp:tcp-retry-to-another-server", fmt("[%s] the TCP retry went to server %d, the truncated answer came from server %d", c.name.c_str(), w.txs[(size_t)ttx].server, w.txs[(size_t)last].server));
+            w.apply(mk(EV_REPLY, ttx, RK_DATA));
+            drain();
+            if (w.toks[0].count != 1 || w.toks[0].status != ARES_SUCCESS) w.violate("C20:udp:tcp-retry-not-delivered", fmt("[%s] the answer to the TCP retry was not delivered", c.name.c_str()));
+            rep.witness("tc_retried_over_tcp");
+            if (u.timeouts + 1 == u.tries * u.nsrv) rep.witness("tc_on_last_attempt_retried");
+          }
+        } else {
+          if (ttx >= 0 || w.toks[0].count != 1) w.violate("C20:udp:igntc-not-honoured", fmt("[%s] with truncation ignored the truncated answer must be delivered and no TCP transmission made", c.name.c_str()));
+          rep.witness("igntc_delivered");
+        }
+      }
     }
     w.closure();
     w.teardown();
-    for (auto &x : w.viols) v.push_back(x);
-    if (log && (!replay_only || cs == which)) *log = w.obs;
-    if (replay_only && cs != which) v.clear();
+    for (auto &x : w.viols) v.push_back({ x, cs });
+    if (log) *log = w.obs;
     rep.executions++;
   }
 }
@@ -285,8 +327,10 @@ int stream_main(const vf::Args &a)
     };
     std::vector<Viol> v;
     if (s.find("\"udp_case\"") != std::string::npos) {
-      std::vector<std::string> log;
-      udp_cases(rep, true, (int)geti("udp_case"), v, &log);
+      std::vector<std::string>          log;
+      std::vector<std::pair<Viol, int>> uv;
+      udp_cases(rep, true, (int)geti("udp_case"), uv, &log);
+      for (auto &x : uv) v.push_back(x.first);
       for (auto &l : log) printf("  %s\n", l.c_str());
     } else {
       StreamScenario sc;
@@ -329,9 +373,9 @@ int stream_main(const vf::Args &a)
             scs.push_back(sc);
           }
   if (a.shard == 0) {
-    std::vector<Viol> v;
+    std::vector<std::pair<Viol, int>> v;
     udp_cases(rep, false, 0, v, nullptr);
-    for (auto &x : v) rep.violation(x.key, x.desc, "{\"index\":-1,\"udp_case\":" + std::string(x.key.find("igntc") != std::string::npos ? "1" : x.key.find("zero") != std::string::npos ? "2" : "0") + "}");
+    for (auto &x : v) rep.violation(x.first.key, x.first.desc, "{\"index\":-" + std::to_string(x.second + 1) + ",\"udp_case\":" + std::to_string(x.second) + "}");
   }
   for (auto &sc : scs) {
     StreamOutcome base = run_stream(sc, StreamPlan(), false);
